@@ -61,6 +61,8 @@ class Check:
 
     def floor(self, rule, floor):
         n = self.rules.get(rule, {}).get("instances", 0)
+        if any(v["rule"] == rule for v in self.violations):
+            return      # a table that stopped at its first violation must report it, not be masked by the floor
         if n < floor:
             raise AnalysisBroken("rule %s matched %d instances, below the floor %d confirmed by reading "
                                  "(an anchor moved or the matcher no longer recognises the idiom)" % (rule, n, floor))
